@@ -355,7 +355,9 @@ static void reg_putln(int h, char *s)
 		char *end = old;
 		for (i = 1; end != NULL && i < xhist; i++)
 			end = strchr(end == old ? end : end + 1, '\n');
-		if (end != NULL)
+		if (xhist == 1)		/* no older line is kept */
+			old[0] = '\0';
+		else if (end != NULL)
 			end[1] = '\0';
 	}
 	/* add the new line */
